@@ -448,9 +448,37 @@ if ver == 2 {
                 oracle_two: f2.oracle,
                 memo_program: anchor_spl::memo::ID,
             };
+            // supplemental tick arrays for BOTH legs in half of the cases (2 + 2, or 3 + 1: each leg within its own limit of
+            // three; they repeat the legs' own arrays, which changes nothing for a single swap - C10 - and must change
+            // nothing for the two-hop either)
+            let mut metas: Vec<Meta> = acc.to_account_metas(None).iter().map(Meta::from).collect();
+            let rai = {
+                use ::whirlpool::util::{AccountsType, RemainingAccountsInfo, RemainingAccountsSlice};
+                let (n1, n2) = match amount % 4 {
+                    1 => (2usize, 2usize),
+                    2 => (3, 1),
+                    _ => (0, 0),
+                };
+                if n1 + n2 == 0 {
+                    None
+                } else {
+                    for kx in ta1.iter().take(n1) {
+                        metas.push(Meta { key: *kx, signer: false, writable: true });
+                    }
+                    for kx in ta2.iter().take(n2) {
+                        metas.push(Meta { key: *kx, signer: false, writable: true });
+                    }
+                    Some(RemainingAccountsInfo {
+                        slices: vec![
+                            RemainingAccountsSlice { accounts_type: AccountsType::SupplementalTickArraysOne, length: n1 as u8 },
+                            RemainingAccountsSlice { accounts_type: AccountsType::SupplementalTickArraysTwo, length: n2 as u8 },
+                        ],
+                    })
+                }
+            };
             (
-                acc.to_account_metas(None).iter().map(Meta::from).collect(),
-                ::whirlpool::instruction::TwoHopSwapV2 { amount, other_amount_threshold: thr, amount_specified_is_input: ein, a_to_b_one: d1, a_to_b_two: d2, sqrt_price_limit_one: lim1, sqrt_price_limit_two: lim2, remaining_accounts_info: None }.data(),
+                metas,
+                ::whirlpool::instruction::TwoHopSwapV2 { amount, other_amount_threshold: thr, amount_specified_is_input: ein, a_to_b_one: d1, a_to_b_two: d2, sqrt_price_limit_one: lim1, sqrt_price_limit_two: lim2, remaining_accounts_info: rai }.data(),
             )
         } else {
             let acc = ::whirlpool::accounts::TwoHopSwap {
